@@ -109,10 +109,14 @@ def annotate_module(modpath, src, ov, report):
         meta_base = {'fn': q, 'props': fo.props}
         for a in fo.attrs:
             ins(it.attrs_start, _indent_of(src, it.start) + a + '\n', dict(meta_base, kind='attr'))
-        if fo.assume_external:
+        demoted = q in report.get('demote', ())
+        if fo.assume_external or demoted:
             ins(it.attrs_start, _indent_of(src, it.start) + '#[verifier::external_body]\n',
                 dict(meta_base, kind='assume_external'))
-            report['assumed_contracts'].append(q)
+            if demoted:
+                report['demoted'].append(q)
+            else:
+                report['assumed_contracts'].append(q)
         if fo.ret:
             sp = rsparse.ret_type_span(m, it)
             if sp is None:
@@ -123,7 +127,7 @@ def annotate_module(modpath, src, ov, report):
             ins(it.sig_end, '\n' + fo.spec, dict(meta_base, kind='spec'))
         if not it.has_body:
             continue
-        if fo.assume_external:
+        if fo.assume_external or demoted:
             continue
         if fo.entry:
             ins(it.sig_end + 1, '\n' + fo.entry, dict(meta_base, kind='entry'))
@@ -227,14 +231,14 @@ def build_tree(mod_texts):
     return root
 
 
-def generate(outpath, repo_src=None, contracts_dir=None):
+def generate(outpath, repo_src=None, contracts_dir=None, demote=()):
     repo_src = repo_src or REPO_SRC
     contracts_dir = contracts_dir or os.path.join(VERIF, 'contracts')
     ov = overlay.load(contracts_dir)
     report = {
         'uncovered': [], 'covered': {}, 'assumed_contracts': [], 'lost_anchors': [],
         'fragile_anchors': 0, 'loops': {}, 'trait_decl_nospec': [], 'used_containers': set(),
-        'rule_counts': Counter(), 'trait_of': {},
+        'rule_counts': Counter(), 'trait_of': {}, 'demote': set(demote), 'demoted': [],
     }
     prelude = open(os.path.join(contracts_dir, 'prelude.rs')).read()
     spec_files = sorted(f for f in os.listdir(os.path.join(contracts_dir, 'spec')) if f.endswith('.rs'))
